@@ -109,8 +109,17 @@ class Registry:
         self.by_target.setdefault(target, []).append(c)
         return c
 
-    def schema(self, name, path, fields=None, invariant=(), bases=()):
+    def schema(self, name, path, fields=None, invariant=(), bases=(), key_view=None, eq_view=None):
         s = ClassSchema(name, path, dict(fields or {}), list(invariant), list(bases))
+        s.key_view = key_view      # field that carries hash/equality when used as a dict key
+        s.eq_view = eq_view        # spec function giving the value compared by __eq__
+        if name in self.schemas:
+            # later declarations extend earlier ones (shared schemas grow per property)
+            old = self.schemas[name]
+            old.fields.update(s.fields)
+            old.key_view = old.key_view or key_view
+            old.eq_view = old.eq_view or eq_view
+            return old
         self.schemas[name] = s
         return s
 
@@ -153,14 +162,57 @@ contract = REG.contract
 schema = REG.schema
 
 
-def spec(fn):
+def _lazy_native(f):
+    """Native twin of a spec function in which implies(a, b) short-circuits
+    (b may be undefined when a is false).  None if the body has no implies()."""
+    import ast
+    import inspect
+    import textwrap
+    try:
+        src = textwrap.dedent(inspect.getsource(f))
+    except (OSError, TypeError):
+        return None
+    if 'implies(' not in src:
+        return None
+    tree = ast.parse(src)
+
+    class T(ast.NodeTransformer):
+        def visit_Call(self, node):
+            node = self.generic_visit(node)
+            if isinstance(node.func, ast.Name) and node.func.id == 'implies' and len(node.args) == 2:
+                return ast.BoolOp(op=ast.Or(), values=[
+                    ast.UnaryOp(op=ast.Not(), operand=node.args[0]), node.args[1]])
+            return node
+    fd = tree.body[0]
+    fd.decorator_list = []
+    tree = ast.fix_missing_locations(T().visit(tree))
+    ns = {}
+    exec(compile(tree, inspect.getsourcefile(f) or '<spec>', 'exec'), f.__globals__, ns)
+    return ns[f.__name__]
+
+
+def spec(fn=None, native=None):
     """Mark a Python function as a spec function (pure, total, expression-like).
 
-    Natively it is just the function; symbolically its body is inlined in term
-    mode."""
-    fn.__pyvc_spec__ = True
-    REG.specs[fn.__name__] = fn
-    return fn
+    Natively it is just the function (or the given `native` twin, when the
+    symbolic definition speaks about the heap model rather than Python objects);
+    symbolically its body is inlined in term mode."""
+    def deco(f):
+        if native is None:
+            lazy = _lazy_native(f)
+            if lazy is None:
+                f.__pyvc_spec__ = True
+                REG.specs[f.__name__] = f
+                return f
+            return spec(f, native=lazy)
+        def twin(*a, **k):
+            return native(*a, **k)
+        twin.__pyvc_spec__ = True
+        twin.__wrapped_spec__ = f      # the symbolic definition
+        twin.__name__ = f.__name__
+        REG.specs[f.__name__] = twin
+        return twin
+    return deco(fn) if fn is not None else deco
 
 
 def uninterp(sorts, result):
@@ -189,6 +241,7 @@ class _NativeQuant:
     """forall/exists evaluated natively over a finite window of integers that
     is centred on the integers seen in the replayed input."""
     centre = [0]
+    strings = ['', 'zz']
 
     @classmethod
     def domain(cls):
@@ -198,16 +251,21 @@ class _NativeQuant:
         return sorted(pts)
 
 
+def _domains(fn, kinds):
+    names = fn.__code__.co_varnames[:fn.__code__.co_argcount]
+    return [(_NativeQuant.strings if kinds.get(n) == 'str' else _NativeQuant.domain()) for n in names]
+
+
 def forall(fn, *a, **k):
-    n = fn.__code__.co_argcount
-    dom = _NativeQuant.domain()
-    return all(fn(*xs) for xs in itertools.product(dom, repeat=n))
+    return all(fn(*xs) for xs in itertools.product(*_domains(fn, k)))
 
 
 def exists(fn, *a, **k):
-    n = fn.__code__.co_argcount
-    dom = _NativeQuant.domain()
-    return any(fn(*xs) for xs in itertools.product(dom, repeat=n))
+    return any(fn(*xs) for xs in itertools.product(*_domains(fn, k)))
+
+
+def set_native_strings(strs):
+    _NativeQuant.strings = sorted(set(strs) | {'', 'zz'})[:14]
 
 
 def set_native_window(ints, width=12):
